@@ -437,6 +437,9 @@ def continuity_shape(cx):
     for lits, v, _ in rets:
         ne_msg = any(l[0] == "is" and l[2] is False and l[1][0] == "call" and l[1][1].endswith("is_empty") and any(is_f(x, "Message.entries") for x in walk(l[1])) for l in lits)
         ne_ents = any(l[0] == "is" and l[2] is False and l[1][0] == "call" and l[1][1].endswith("is_empty") and l[1][2][0][0] == "param" for l in lits)
+        # ... or the element itself was obtained: `match (msg.entries.last(), ents.first()) { (Some(l), Some(f)) => .. }`
+        ne_msg = ne_msg or any(l[0] == "in" and l[2] == frozenset(["Some"]) and l[1][0] == "call" and (l[1][1].endswith("::last") or l[1][1].endswith("::first")) and any(is_f(x, "Message.entries") for x in walk(l[1])) for l in lits)
+        ne_ents = ne_ents or any(l[0] == "in" and l[2] == frozenset(["Some"]) and l[1][0] == "call" and (l[1][1].endswith("::last") or l[1][1].endswith("::first")) and l[1][2] and l[1][2][0][0] == "param" for l in lits)
         uses_last = any(x[0] == "call" and x[1].endswith("::last") for x in walk(v))
         uses_first = any(x[0] == "call" and x[1].endswith("::first") for x in walk(v)) or any(x[0] == "index" for x in walk(v))
         if ne_msg and ne_ents:
@@ -468,10 +471,10 @@ def range_check(cx):
     ok = bool(rets)
     kinds = set()
     for lits, v, _ in rets:
-        if v[0] == "adt" and v[1].endswith("Option::Some") and any(x[0] in ("enum", "adt") and str(x[1]).endswith("Compacted") or (x[0] == "enum" and x[2] == "Compacted") for x in walk(v)):
+        if v[0] == "adt" and (v[1].endswith("Option::Some") or v[1].endswith("Result::Err")) and any(x[0] in ("enum", "adt") and str(x[1]).endswith("Compacted") or (x[0] == "enum" and x[2] == "Compacted") for x in walk(v)):
             ok = ok and any(below_first(l, True) for l in lits)
             kinds.add("compacted")
-        elif v == ("enum", "core::option::Option", "None"):
+        elif v == ("enum", "core::option::Option", "None") or (v[0] == "adt" and v[1].endswith("Result::Ok")):
             upper = any(l[0] == "is" and l[2] is False and l[1][0] == "bin" and l[1][1] == "Lt" and l[1][3][0] == "param" and any(x[0] == "call" and x[1].endswith("RaftLog::last_index") for x in walk(l[1][2])) for l in lits)
             ok = ok and any(below_first(l, False) for l in lits) and upper
             kinds.add("ok")
